@@ -31,7 +31,7 @@ TRUSTED_BASE = [
     'INTEGER/STEP/CHOICES/WRITABLE as real drivers do), repo test MockAPIRequest, in-memory persistence',
     'modelled, not verified: jsonschema 4.x Draft4Validator (keywords enum, minimum, maximum, type), json.loads, CPython '
     'numeric semantics (Base/PyNum.v), float.__repr__ (C05/Repr.v, tied on every float of every case), fractions.Fraction, '
-    'the write-transform expressions MUL/ADD/NOT/SUB/DIV as used by the harness (numeric literals evaluate to floats), '
+    'the write-transform expressions MUL/ADD/NOT/SUB/DIV/MOD as used by the harness (numeric literals evaluate to floats), '
     'json_utils.dumps (overflow on huge ints)',
 ]
 ASSUMPTIONS = [
@@ -178,7 +178,11 @@ TRANSLATORS = [translate_rules]
 # ----------------------------------------------------------------------------------------------------------------
 # generator: port definitions x JSON bodies
 
-TRANSFORMS = {0: None, 1: 'MUL($, 2)', 2: 'ADD($, 1)', 3: 'NOT($)', 4: 'SUB(10, $)', 5: 'DIV(1, $)', 6: 'DIV($, 4)'}
+TRANSFORMS = {0: None, 1: 'MUL($, 2)', 2: 'ADD($, 1)', 3: 'NOT($)', 4: 'SUB(10, $)', 5: 'DIV(1, $)', 6: 'DIV($, 4)', 7: 'MOD(7, $)',
+              8: 'DIV($, SUB($, 3))'}
+# in-domain values on which a (partial) transform fails to evaluate: the request must be refused, the driver untouched;
+# always part of the quick slice of a definition with that transform
+TRANSFORM_FAILS = {5: [0, 0.0, False], 7: [0, 0.0, False], 8: [3, 3.0]}
 STEPS = [None, 1, 5, 0.5, 0.25, 0.1, 0.01]
 MINS = [0, 1, -5, 0.5, 0.1, -2.5, 10]
 MAXS = [10, 100, 5, 1, 0.9, 7.5, 255]
@@ -228,7 +232,9 @@ def all_definitions(full=False):
             d.update(enabled=en, writable=wr, exists=ex)
             defs.append(d)
     # write transforms
-    for t in range(1, 7):
+    defs.append(mk_def(type_='boolean', transform=5))
+    defs.append(mk_def(type_='boolean', transform=7))
+    for t in range(1, 9):
         defs.append(mk_def(transform=t))
         defs.append(mk_def(transform=t, integer=True))
         defs.append(mk_def(transform=t, min_=0, max_=10, step=0.5))
@@ -625,12 +631,19 @@ class Impl:
             r = await self.one(port, pid, 'sequence', json.dumps(params).encode())
             if r['outcome'] != 'Accepted':
                 return None
-            for _ in range(400):
-                if port._sequence is None and port._write_value_queue.empty() and not port._writing:
-                    break
+            # the last element is handed to a fire-and-forget task just before the sequence reports its end: wait until the
+            # sequence is gone, the queue is idle and the driver calls have been stable for a few milliseconds
+            stable, seen = 0, -1
+            for _ in range(600):
+                idle = port._sequence is None and port._write_value_queue.empty() and not port._writing
+                if idle and len(port.written) == seen:
+                    stable += 1
+                    if stable >= 15:
+                        break
+                else:
+                    stable = 0
+                seen = len(port.written)
                 await asyncio.sleep(0.001)
-            for _ in range(5):
-                await asyncio.sleep(0)
             return r, values, list(port.written)
         finally:
             port.play = False
@@ -1029,6 +1042,9 @@ def build_plan(ctx, n_pairs, full=False):
         vals = values_for(d)
         k = min(len(vals), per + (3 if d['step'] else 0))
         chosen = rng.sample(vals, k)
+        for v in TRANSFORM_FAILS.get(d['transform'], []):
+            if not any(_vkey(v) == _vkey(c) for c in chosen):
+                chosen.append(v)
         nseq = 1 if rng.random() < 0.6 else 0
         plan.append((d, [body_of(v) for v in chosen], sequences_for(d, vals, rng, nseq)))
         budget -= k + nseq
@@ -1051,7 +1067,9 @@ def nontrivial(d, body):
 def check(ctx, res):
     res['rule'] = (
         'definitions: number/boolean x {no bounds, min, max, both} (7 mins, 7 maxs, 10 pairs; thorough: all 42 pairs) x integer x step in {none, 1, 5, 0.5, '
-        '0.25, 0.1, 0.01} + choices lists + disabled / read-only / missing ports + 6 write transforms + degenerate steps; '
+        '0.25, 0.1, 0.01} + choices lists + disabled / read-only / missing ports + 8 write transforms (three partial: DIV(1, $), '
+        'MOD(7, $), DIV($, SUB($, 3)); the in-domain values on which they fail are always included: such a request must be refused, '
+        'driver untouched) + degenerate steps; '
         'bodies per definition: true/false/null/strings/arrays/objects, ints and floats at and next to (math.nextafter) every '
         'bound, grid points min + k*step computed decimally and in floats with their neighbours, off-grid points, 2^53+-1, '
         '1e308, 10^400, NaN, 1e400, -Infinity, -0.0, ints written as floats; 0-4 element sequences from the same pools. '
